@@ -18,13 +18,13 @@ class TokEngine(glue.GlueEngine):
         self.min_harness_bound = max(self.tb["FILTERED_STR_LEN"] + 12, self.tb["instr_rows"] + 8)
 
     def unit(self, name, cfile, defs=(), replace=(), unwind=110, unwindset=None, checks="full", timeout=None, replay_fn=None,
-             common=("vf_main.c", "libc_models.c"), ignore_props=(), exclude=None, only=None, hunt=None, isr=None, native_extra=()):
+             common=("vf_main.c", "libc_models.c"), ignore_props=(), exclude=None, only=None, hunt=None, isr=None, native_extra=(), extra_flags=()):
         defs = list(defs) + ["-DVF_MODEL_STRTOUL"]
         uw = {"strncpy.0": 110}
         uw.update(unwindset or {})
         return self.run(name, cfile, defs=defs, unwind=unwind, unwindset=uw, checks=checks, common=common,
                         replace=list(replace), timeout=timeout, replay_fn=replay_fn, ignore_props=ignore_props,
-                        exclude=exclude, only=only, hunt=hunt, isr=isr, native_extra=native_extra)
+                        exclude=exclude, only=only, hunt=hunt, isr=isr, native_extra=native_extra, extra_flags=extra_flags)
 
 
 _API_LOCK = threading.Lock()
@@ -124,6 +124,10 @@ def rel_confirm(eng, mode, corpus):
             for ch in sorted(set(c for c in line if c.isalpha())):
                 pairs.append((line, line.replace(ch, ch.upper())))
             pairs.append((line, line.upper()))
+        elif mode == "blankrun":
+            pairs.append((line, " \t" * 50 + line))
+            pairs.append((line, line.replace(" ", " " + " \t" * 50, 1)))
+            pairs.append((line, " \t" * 30 + line.replace(" ", " " + " \t" * 30, 1)))
         elif mode == "blank":
             pairs.append((line, "  " + line))
             pairs.append((line, line.replace(",", " , ").replace("[", "[ ").replace("]", " ]").replace("+", " + ").replace("*", " * ")))
